@@ -1,24 +1,30 @@
 #!/bin/bash
-# seedverify.sh <id> <seed-worktree> [test-tags] — confirm a seeded change in a scratch worktree of /repo:
-#  (1) existing suite passes with the change, (2) demo fails with it, (3) demo passes without it.
-# Demo test files are every untracked *_test.go in the seed worktree.
+# seedverify.sh <seed-id> <seed-worktree> — confirm a seeded change in a scratch worktree of /repo:
+#  (1) existing suite passes with the change (up to 3 tries: two upstream tests are timing/fuzz flaky),
+#  (2) demo fails with it, (3) demo passes without it.
+# Demo test files are every untracked *_test.go in the seed worktree; -tags verif is used when a demo asks for it.
 set -u
 export GOFLAGS=-mod=mod GOPROXY=off GOSUMDB=off GOTOOLCHAIN=local
-id=$1; src=$2; tags=${3:-}
+id=$1; src=$2
 w=/tmp/sv-$id
 git -C /repo worktree remove --force $w 2>/dev/null
 git -C /repo worktree add --detach $w HEAD -q || exit 2
 cd $w
 git apply $src/seed_patch.diff || { echo "PATCH DOES NOT APPLY"; exit 2; }
 echo "== existing suite with change"
-go build ./... && go test -vet=off -count=1 -timeout 25m ./... 2>&1 | grep -v "^ok\|no test files" | tail -20
-echo "suite exit: ${PIPESTATUS[0]}"
+for try in 1 2 3; do
+  go build ./... && go test -vet=off -count=1 -timeout 25m ./... > /tmp/sv-$id.suite.log 2>&1; rc=$?
+  [ $rc = 0 ] && break
+done
+echo "suite exit: $rc (tries: $try) $(grep -h '^--- FAIL' /tmp/sv-$id.suite.log | tr '\n' ' ')"
 demos=$(git -C $src ls-files --others --exclude-standard | grep '_test.go$')
-for d in $demos; do mkdir -p $(dirname $d); cp $src/$d $d; done
+tags=""
+for d in $demos; do mkdir -p $(dirname $d); cp $src/$d $d; grep -q '^//go:build verif' $src/$d && tags=verif; done
 pk=$(for d in $demos; do echo ./$(dirname $d); done | sort -u)
-echo "== demo WITH change (expect FAIL): $demos"
-go test -vet=off -count=1 ${tags:+-tags $tags} -run 'Seed' $pk 2>&1 | tail -15
+pat=$(cat $(for d in $demos; do echo $src/$d; done) | grep -o '^func Test[A-Za-z0-9_]*' | sed 's/func //' | paste -sd'|')
+echo "== demo WITH change (expect FAIL): $demos  -run '$pat' tags=$tags"
+go test -vet=off -count=1 ${tags:+-tags $tags} -run "^($pat)\$" $pk 2>&1 | grep -v "^\s*$" | tail -12 | cut -c1-300
 git apply -R $src/seed_patch.diff
 echo "== demo WITHOUT change (expect ok)"
-go test -vet=off -count=1 ${tags:+-tags $tags} -run 'Seed' $pk 2>&1 | tail -5
+go test -vet=off -count=1 ${tags:+-tags $tags} -run "^($pat)\$" $pk 2>&1 | tail -4
 cd /; git -C /repo worktree remove --force $w
